@@ -90,6 +90,13 @@ class InferName(FnSpec):
         t = res.t if isinstance(res, SStr) else (z3.StringVal(res) if isinstance(res, str) else None)
         return [("record-name-of-a-container-file", z3.BoolVal(False) if t is None else t == a.n, "the record name is recovered exactly from the base container's and from every patch container's file name — whatever the name looks like (digits, a trailing 'p<digits>', dashes, dots that do not start '.p' or '.ih5')")]
 
+    def native_plan(self, m, o):
+        n, k = m.get("record_name"), m.get("patch_digits")
+        if not isinstance(n, str):
+            return None
+        fname = n + (".p" + k if isinstance(k, str) and k else "") + ".ih5"
+        return {"fn": "_infer_name", "args": ["/some/dir/" + fname], "expect": n}
+
     # callee side: the name as a function of the path (characterised above for the library's own file names)
     def result(self, cx, a):
         return SStr(INFER(a.record_path.t))
